@@ -89,7 +89,7 @@ theorem lazy_collapse (l : LNode) (t : Node) (d : Nat) (hr : LRep H S l t) (hs :
 
 /-! ## 10. any interleaving -/
 
-/-- C10.10a: every schedule of Put / Delete / PutBatch / Get / GetProof / StateRoot / TrieStore.Seek / Flush / Collapse(d) /
+/-- C10.10a: every schedule of Put / Delete / PutBatch / Get / GetProof / Find / StateRoot / TrieStore.Seek / Flush / Collapse(d) /
 reopen-from-root in which Collapse and reopen happen only while nothing was changed since the last
 Flush, started on a fresh trie over ANY store: the real representation returns exactly what the
 expanded trie returns — no errors, the same values, the same state roots. Side conditions on the
@@ -315,5 +315,22 @@ theorem lazy_seek (F : Nat) (l : LNode) (t : Node) (pre fromP : Path) (back : Bo
 
 -- non-vacuity: a seek from the single HashNode of the reopened example trie {12 ↦ 07, 13 ↦ 08}
 example : lseek exLS.store 20 (lreopen toyH exLS.root) [1] [3] true = some [([3], [8]), ([2], [7])] := by decide
+
+/-! ## 16. Trie.Find on the real representation -/
+
+/-- C10.5c on the real representation: `Trie.Find` as it runs — the start node found through HashNodes
+with the prefix path loaded in place, then the forward traversal from that node of the trie itself,
+loading what it goes through in place and stopping as soon as `count >= maxNum` — meets no storage
+error, returns exactly what `findX` returns on the represented trie (hence `find_exact_spec`: the
+first `k` keys under the prefix strictly after `from`), and the root it leaves behind, with whatever it
+loaded, still represents the same trie. -/
+theorem lazy_find (F : Nat) (l : LNode) (t : Node) (pre : Path) (frm : Option Path) (maxNum : Nat)
+    (hr : LRep H S l t) (hF : 2 * height t + 3 ≤ F) :
+    (lfind S F l pre frm maxNum).2 = findX t pre frm maxNum ∧ LRep H S (lfind S F l pre frm maxNum).1 t :=
+  lfind_rep F l t pre frm maxNum hr hF
+
+-- non-vacuity: Find on the reopened example trie {12 ↦ 07, 13 ↦ 08} (root = one HashNode), stopping
+-- after the first result
+example : (lfind exLS.store 20 (lreopen toyH exLS.root) [1] none 1).2 = some [([2], [7])] := by decide
 
 end NeoModel.C10
